@@ -155,9 +155,10 @@ def run(spec, ctx):
     m = W.Model(spec['world'])
     rng = random.Random(spec['seed'] * 7919 + 13)
     tw = threadsim.ThreadWorld(rng, spec['knobs'].get('p_reuse', 0.5))
-    old = TS.current_frames, TS.threading
+    old = TS.current_frames, TS.threading, TS.sys
     TS.current_frames = tw.current_frames
     TS.threading = threadsim.ThreadingSeam(tw)
+    TS.sys = threadsim.SysSeam(tw)
     calls = {'thread_start': tw.start, 'thread_end': tw.end, 'thread_poke': tw.poke}
     orig_install = simrt.install
 
@@ -170,7 +171,7 @@ def run(spec, ctx):
         res = core.execute(spec, W.argv(spec['opt'], src))
     finally:
         simrt.install = orig_install
-        TS.current_frames, TS.threading = old
+        TS.current_frames, TS.threading, TS.sys = old
         tw.end_all()
     viols = []
     sid = {d['tid']: d['sid'] for d in m.discover()}
